@@ -673,6 +673,8 @@ def get_attribute(ip, obj, name):
             return am
         raise Unsupported(f"class attribute {obj.key}.{name}")
     if isinstance(obj, ExtRef):
+        if obj.dotted in ip.src.modules:
+            return ip._import_value(("adcgen", obj.dotted, name))
         dotted = obj.dotted + "." + name
         if dotted in C.EXTERNALS and not callable(C.EXTERNALS[dotted]):
             return C.EXTERNALS[dotted]
